@@ -226,6 +226,45 @@ theorem alternate_target_result_sound (pick : List Nat → Nat) (np : Nat) (targ
   · intro iso h1
     exact Alt.iso_of_isIsoMap np target iso.f (relabelMap iso) (hmatch iso h1)
 
+/-- **the same with the LC graphs coming from the MODELLED orbit explorers** (C16): the side condition "the LC graphs are simple graphs on
+    `np` vertices" of `alternate_target_result_sound` is replaced by "every LC graph handed over for `iso` lies in the LC orbit of `iso`" —
+    which C16 proves for every graph `rgs_orbit_finder`, `linear_partial_orbit`, `depth_first_orbit` and `lc_orbit_finder` return
+    (`explorer_outputs_in_orbit` below), hence for every prefix `[:n_lc]` `solve` takes.  What is left as side condition is only what comes
+    from networkx: the relabel maps pass the `GraphMatcher` specification `isIsoMap`. -/
+theorem alternate_target_result_sound_in_orbit (pick : List Nat → Nat) (np : Nat) (target : Nat → Nat → Bool) (out : List Alt.Entry)
+    (isoAdjs : List BMat) (lcGraphs : BMat → List BMat) (relabelMap : BMat → List Nat)
+    (htarget : Simple np target)
+    (horbit : ∀ iso lc, iso ∈ isoAdjs → lc ∈ lcGraphs iso → InOrbit np iso.f lc)
+    (hmatch : ∀ iso, iso ∈ isoAdjs → isIsoMap np target iso.f (relabelMap iso) = true)
+    (hpick : ∀ keys : List (List Bool), ∀ s, s ∈ Alt.setList keys → pick s ∈ s)
+    (h : Alt.solve (modelParts np isoAdjs lcGraphs relabelMap) pick = .ok out) :
+    (∀ e, e ∈ out → ∀ script : List Bool, script.length = countMeas e.ops →
+      ∃ s, stabRun e.ne np .prob script e.ops = some s ∧
+        ∀ p, (STab.ofTab s.t).Spn p ↔ (targetSTab np e.ne (relabelAdj np target e.map)).Spn p) ∧
+    out.Pairwise (fun e e' => e.g.flat ≠ e'.g.flat) ∧
+    ∃ es, Alt.allEntries (modelParts np isoAdjs lcGraphs relabelMap) = .ok es ∧ out.Sublist es ∧
+      ∀ e, e ∈ es → ∃ e', e' ∈ out ∧ e'.g.flat = e.g.flat := by
+  refine alternate_target_result_sound pick np target out isoAdjs lcGraphs relabelMap htarget ?_ hmatch hpick h
+  intro iso lc h1 h2
+  have ho := horbit iso lc h1 h2
+  exact ⟨ho.1, ho.2.1, ho.simple (Alt.simple_of_isIsoMap np target iso.f _ htarget (hmatch iso h1))⟩
+
+/-- every graph in a prefix `[:n_lc]` of what one of the four modelled explorers returns on a simple `iso` with `np` vertices lies in the LC
+    orbit of `iso` (C16): the hypothesis `horbit` of `alternate_target_result_sound_in_orbit` for each way `solve` fills `lc_graphs` -/
+theorem explorer_outputs_in_orbit (np nlc : Nat) (iso : BMat) (hr : iso.r = np) (hc : iso.c = np) (hs : Simple np iso.f) :
+    (∀ out, rgsOrbitFinder iso = .ok out → ∀ lc ∈ out.take nlc, InOrbit np iso.f lc) ∧
+    (∀ out, linearPartialOrbit iso = .ok out → ∀ lc ∈ out.take nlc, InOrbit np iso.f lc) ∧
+    (∀ isoTest fuel paths out, depthFirstOrbit isoTest fuel iso = .ok (paths, out) → ∀ lc ∈ out.take nlc, InOrbit np iso.f lc) ∧
+    (∀ cfg isoTest fuel draws shuffles out, (∀ s ∈ shuffles, ValidNodes np s) →
+      lcOrbitFinder cfg isoTest fuel iso draws shuffles = .ok out → ∀ lc ∈ out.take nlc, InOrbit np iso.f lc) := by
+  subst hr
+  refine ⟨fun out e lc hl => ?_, fun out e lc hl => ?_, fun isoTest fuel paths out e lc hl => ?_,
+    fun cfg isoTest fuel draws shuffles out hv e lc hl => ?_⟩
+  · exact rgsOrbitFinder_inOrbit iso out hc hs e lc (List.mem_of_mem_take hl)
+  · exact linearPartialOrbit_inOrbit iso out hc hs e lc (List.mem_of_mem_take hl)
+  · exact depthFirstOrbit_inOrbit isoTest fuel iso paths out hc hs e lc (List.mem_of_mem_take hl)
+  · exact lcOrbitFinder_inOrbit cfg isoTest fuel iso draws shuffles out hc hs hv e lc (List.mem_of_mem_take hl)
+
 /-! ### Non-vacuity of `solve_result_correct`: one relabelled target (the path 0–1–2 itself), one LC graph, the known circuit -/
 def pathB : BMat := (BMat.ofAdj 3 C02.lin3adj)
 def demoParts : Alt.Parts :=
